@@ -16,6 +16,9 @@ use crate::{
 #[cfg(feature = "panic-on-alloc")]
 use crate::panic_on_error;
 
+#[cfg(bump_scope_verif)]
+use crate::verif_hooks;
+
 macro_rules! make_pool {
     ($($allocator_parameter:tt)*) => {
         /// A pool of bump allocators.
@@ -146,7 +149,12 @@ where
     }
 
     fn lock(&self) -> MutexGuard<'_, Vec<Bump<A, S>>> {
-        self.bumps.lock().unwrap_or_else(PoisonError::into_inner)
+        #[cfg(bump_scope_verif)]
+        verif_hooks::emit(verif_hooks::POOL_LOCK_BEFORE, self, verif_hooks::NO_IDLE);
+        let guard = self.bumps.lock().unwrap_or_else(PoisonError::into_inner);
+        #[cfg(bump_scope_verif)]
+        verif_hooks::emit(verif_hooks::POOL_LOCK_HELD, self, guard.len());
+        guard
     }
 }
 
@@ -172,6 +180,8 @@ where
             Some(bump) => bump,
             None => Bump::new_in(self.allocator.clone()),
         };
+        #[cfg(bump_scope_verif)]
+        verif_hooks::emit(verif_hooks::POOL_GET_AFTER, self, verif_hooks::NO_IDLE);
 
         BumpPoolGuard {
             pool: self,
@@ -194,6 +204,8 @@ where
             Some(bump) => bump,
             None => Bump::try_new_in(self.allocator.clone())?,
         };
+        #[cfg(bump_scope_verif)]
+        verif_hooks::emit(verif_hooks::POOL_GET_AFTER, self, verif_hooks::NO_IDLE);
 
         Ok(BumpPoolGuard {
             pool: self,
@@ -236,6 +248,8 @@ where
             Some(bump) => bump,
             None => Bump::generic_with_size_in(size, self.allocator.clone())?,
         };
+        #[cfg(bump_scope_verif)]
+        verif_hooks::emit(verif_hooks::POOL_GET_AFTER, self, verif_hooks::NO_IDLE);
 
         Ok(BumpPoolGuard {
             pool: self,
@@ -278,6 +292,8 @@ where
             Some(bump) => bump,
             None => Bump::generic_with_capacity_in(layout, self.allocator.clone())?,
         };
+        #[cfg(bump_scope_verif)]
+        verif_hooks::emit(verif_hooks::POOL_GET_AFTER, self, verif_hooks::NO_IDLE);
 
         Ok(BumpPoolGuard {
             pool: self,
@@ -359,6 +375,8 @@ where
     fn drop(&mut self) {
         let bump = unsafe { ManuallyDrop::take(&mut self.bump) };
         self.pool.lock().push(bump);
+        #[cfg(bump_scope_verif)]
+        verif_hooks::emit(verif_hooks::POOL_PUT_AFTER, self.pool, verif_hooks::NO_IDLE);
     }
 }
 
